@@ -20,7 +20,7 @@ ASSUMPTIONS = c06.ASSUMPTIONS + [
 ]
 
 METHOD_NAMES = {b"\x21": "LZMA2", b"\x03\x01\x01": "LZMA", b"\x06\xf1\x07\x01": "7zAES", b"\x00": "COPY"}
-ORDER = ["LZMA2", "LZMA", "BZip2", "DEFLATE", "DEFLATE64", "delta", "COPY", "PPMd", "ZStandard", "LZ4*", "BCJ2*", "BCJ",
+ORDER = ["LZMA2", "LZMA", "BZip2", "DEFLATE", "DEFLATE64", "DELTA", "COPY", "PPMd", "ZStandard", "Brotli", "LZ4*", "BCJ2*", "BCJ",
          "ARM", "ARMT", "IA64", "PPC", "SPARC", "7zAES"]
 
 
@@ -193,9 +193,59 @@ def replay(pattern, folders, opts, witness):
         shutil.rmtree(d, ignore_errors=True)
 
 
+# ------------------------------------------------------------------ method names of every coder chain
+def method_names(ncoders):
+    """get_methods_names on chains whose coders are symbolic picks from the live table of supported methods"""
+    from py7zr.compressor import SupportedMethods
+
+    table = [(m["id"], m["name"]) for m in SupportedMethods.methods]
+    r = ObResult(bounds="%d folder(s) x coder(s) whose method is a symbolic index into the %d supported methods %r" % (
+        ncoders, len(table), [n for _, n in table]))
+    from vf.pysym.engine import Engine
+
+    eng = Engine(["py7zr.compressor"], intmode="int")
+    idx = [eng.sym_int("method%d" % i, 5) for i in range(ncoders)]
+
+    def harness(e):
+        picks = []
+        for v in idx:
+            e.assume(e.compare(ast.Lt(), v, len(table)))
+            k = len(table) - 1
+            for c in range(len(table) - 1):
+                if e.branch(e.compare(ast.Eq(), v, c)):
+                    k = c
+                    break
+            picks.append(k)
+        # first coder alone in a folder, the others chained in a second folder
+        lists = [[{"method": table[picks[0]][0]}]] + ([[{"method": table[k][0]} for k in picks[1:]]] if len(picks) > 1 else [])
+        return dict(picks=picks, names=e.call("py7zr.compressor", "get_methods_names", lists))
+
+    def post(o):
+        want = sorted(set(table[k][1].lower() for k in o["picks"]))
+        got = [n.lower() for n in o["names"]]
+        return [sorted(got) == want]   # every coder present is named, once, and nothing else (letter case is not held against it)
+
+    decide(eng, harness, post, {"method%d" % i: v for i, v in enumerate(idx)}, r,
+           describe=lambda o: "%s -> %s" % ([table[k][1] for k in o["picks"]], o["names"]))
+    _cex(r, "method_names", lambda w_: dict(module="vf.props.c10", func="replay_methods", kwargs=dict(
+        picks=[min(int(w_.get("method%d" % i, 0)), len(table) - 1) for i in range(ncoders)])),
+         signature=lambda w_: {"obligation": "method_names"})
+    return r
+
+
+def replay_methods(picks):
+    from py7zr.compressor import SupportedMethods, get_methods_names
+
+    table = [(m["id"], m["name"]) for m in SupportedMethods.methods]
+    lists = [[{"method": table[picks[0]][0]}]] + ([[{"method": table[k][0]} for k in picks[1:]]] if len(picks) > 1 else [])
+    got = get_methods_names(lists)
+    want = sorted(set(table[k][1].lower() for k in picks))
+    return sorted(n.lower() for n in got) != want, "coders %s reported as %s" % ([table[k][1] for k in picks], got)
+
+
 def units(tier):
     M = "vf.props.c10"
-    us = []
+    us = [Unit("method_names[%d]" % n, M, "method_names", dict(ncoders=n), 900) for n in ((1, 2) if tier == "quick" else (1, 2, 3))]
     shapes = RC.shapes(tier) + [("ff", [2], {"aes": True, "ncoders": 2}), ("ff", [1, 1], {"aes": True, "ncoders": 2, "password": True}),
                                 ("f", [1], {"password": True})]
     for (p, f, o) in shapes:
